@@ -643,6 +643,9 @@ func c06CancelBehindNote(n int, b Bounds) *Scenario {
 func c06Scenarios(tier string) []*Scenario {
 	var out []*Scenario
 	out = append(out, batchGates("C06.R2", tier)...)
+	if tier == "quick" {
+		out = append(out, c06Gated(1, 2, false, false, 1, Bounds{1, -1, 1})) // with one environment deviation
+	}
 	maxN, b := 2, Bounds{2, -1, 0}
 	if tier != "quick" {
 		maxN, b = 3, Bounds{3, -1, 1}
